@@ -29,6 +29,9 @@ type C07Fault struct {
 type C07Req struct {
 	Event string    `json:"event"`
 	Fault *C07Fault `json:"fault,omitempty"`
+	// Rush: the request is issued without waiting for the system to settle after the previous
+	// one, so the asynchronous cleanup of a plugin dropped there races with it.
+	Rush bool `json:"rush,omitempty"`
 }
 
 type C07W struct {
@@ -96,6 +99,9 @@ func c07Gen(rng *rand.Rand, conf string, idx int) any {
 			rq.Fault = f
 		} else if conf == "healthy" && rng.Intn(4) == 0 {
 			rq.Fault = &C07Fault{Victim: rng.Intn(n), Kind: "error", When: "during"}
+		}
+		if i > 0 && conf != "healthy" && (rq.Fault == nil || rq.Fault.When == "during") && rng.Intn(3) == 0 {
+			rq.Rush = true
 		}
 		w.Reqs = append(w.Reqs, rq)
 	}
@@ -238,7 +244,11 @@ func c07Exec(t *testing.T, w *C07W, sc SchedCfg, base *c07Transcript, rec *c07Tr
 		}
 		e.Task("caller", func() {
 			for i, rq := range w.Reqs {
-				e.S.Settle("caller")
+				if !rq.Rush {
+					e.S.Settle("caller")
+				} else {
+					e.S.Probe("C07.request-rushed-after-the-previous-one")
+				}
 				if rec != nil {
 					a, b := snap()
 					rec.r2p, rec.p2r = append(rec.r2p, a), append(rec.p2r, b)
@@ -392,6 +402,7 @@ func c07Oracle(res *Result, w *C07W, h *H1, plugs []*Plug, outs []*c07Out, fired
 	n := len(w.Plugins)
 	entries := h.entriesCopy()
 	// status[p] per request
+	diedAt := make([]int, n)
 	dead := make([]bool, n)   // excluded from now on
 	unsure := make([]bool, n) // garbage was injected: the connection may or may not survive
 	nontrivial := false
@@ -403,6 +414,10 @@ func c07Oracle(res *Result, w *C07W, h *H1, plugs []*Plug, outs []*c07Out, fired
 		for k := range status {
 			if dead[k] {
 				status[k], noEntry[k] = stExcluded, true
+				if rq.Rush && diedAt[k] == i-1 {
+					// its loss may not have been noticed yet: either outcome, and it may still be entered
+					status[k], noEntry[k] = stMaybe, false
+				}
 			} else if unsure[k] {
 				status[k] = stMaybe
 			}
@@ -421,7 +436,11 @@ func c07Oracle(res *Result, w *C07W, h *H1, plugs []*Plug, outs []*c07Out, fired
 			at, didFire := fired[i]
 			switch {
 			case dead[v]:
-				// fault on an already dropped plugin: nothing new
+				// fault on an already dropped plugin: nothing new - unless the request was rushed and the
+				// plugin may still take part: its scripted error may then veto the request
+				if status[v] == stMaybe && f.Kind == "error" {
+					anyOutcome = true
+				}
 			case f.Kind == "hang":
 				status[v] = stExcluded
 				nontrivial = true
@@ -582,6 +601,7 @@ func c07Oracle(res *Result, w *C07W, h *H1, plugs []*Plug, outs []*c07Out, fired
 			switch {
 			case f.Kind == "hang":
 				dead[f.Victim] = invoked[w.Plugins[f.Victim].Name] > 0 || dead[f.Victim]
+				diedAt[f.Victim] = i
 			case f.Kind == "error":
 			case f.Kind == "garbage":
 				if didFire {
@@ -596,6 +616,7 @@ func c07Oracle(res *Result, w *C07W, h *H1, plugs []*Plug, outs []*c07Out, fired
 			default:
 				if didFire {
 					dead[f.Victim] = true
+					diedAt[f.Victim] = i
 				}
 			}
 		}
